@@ -25,7 +25,7 @@ RULE = ("scripts over 2-4 nodes: SpawnSingleton full/held from any node, leader-
         "non-trivial = the harness produced a digest; distinct by (case, output)")
 EXPLANATION = "Each script runs on fresh real actor systems (one per node) sharing the fake registry and on the Lean model; results and digest (registry owner, live instances per node, max simultaneous, started, held calls, registry operation log) must be equal."
 
-FACTS = {
+SRC_FACTS = {
     "fact singleton-plain-put": ("actor/actor_system.go", r"func \(x \*actorSystem\) publishSpawnedActor\(ctx context\.Context, pid \*PID\) error \{\s*if pid\.reliableDelivery == nil \|\| !x\.clusterEnabled\.Load\(\) \{\s*return x\.putActorOnCluster\(ctx, pid\)"),
     "fact singleton-local-flight": ("actor/spawn.go", r"func \(x \*actorSystem\) spawnSingletonOnLocal\((?s:.*?)return x\.runSpawnActivation\(ctx, x\.actorReference\(name\)\.String\(\), func\(\) \(\*PID, error\) \{\s*// check some preconditions\s*if err := x\.checkSpawnPreconditions\(ctx, name\); err != nil"),
     "fact remote-handler": ("actor/remote_server.go", r"pid, err := x\.SpawnSingleton\(ctx, request\.GetActorName\(\), actor, singletonOpts\.\.\.\)"),
@@ -74,7 +74,7 @@ def _case(rng, views=True, kills=True):
 
 def gen_cases(rng, tier):
     n = 120 if tier == "quick" else 2500
-    return list(FACTS) + [_case(rng) for _ in range(n)]
+    return list(SRC_FACTS) + [_case(rng) for _ in range(n)]
 
 
 def search_cases(rng, tier):
@@ -83,8 +83,8 @@ def search_cases(rng, tier):
 
 
 def compare(case, impl, model):
-    if case in FACTS:
-        rel, pat = FACTS[case]
+    if case in SRC_FACTS:
+        rel, pat = SRC_FACTS[case]
         try:
             src = open(os.path.join(REPO, rel)).read()
         except OSError as e:
@@ -94,7 +94,7 @@ def compare(case, impl, model):
 
 
 def oracle(case, impl, judge):
-    if case in FACTS:
+    if case in SRC_FACTS:
         return None
     if impl.startswith("CRASH") or impl.startswith("panic"):
         return "harness crashed: " + impl[:200]
@@ -142,7 +142,7 @@ def is_trivial(case, impl):
 
 
 def tag(case, impl):
-    if case in FACTS:
+    if case in SRC_FACTS:
         return "fact"
     t = []
     if "L." in case:
